@@ -34,7 +34,7 @@ ASSUMPTIONS = ["TestScheduler / HistoricalScheduler are the clocks (ordering che
                "judged; the windows are",
                "buffer operators emit one list per window (empty windows give empty lists) except buffer_with_count, "
                "which drops empty lists (DESIGN.md section 5)"]
-CASES = {"quick": 4800, "thorough": 800000}
+CASES = {"quick": 4800, "thorough": 600000}
 OPS = ["window_with_count", "buffer_with_count", "window_with_time", "buffer_with_time",
        "window_with_time_or_count", "buffer_with_time_or_count", "window", "buffer",
        "window_when", "buffer_when", "window_toggle", "buffer_toggle"]
